@@ -547,7 +547,7 @@ def check_valid(premises, goal, timeout_ms=10000, want_model=True, use_cvc5=True
     budgets = [min(1500, timeout_ms), timeout_ms] if timeout_ms > 3000 else [timeout_ms]
     core = [p for p in premises if p.get_id() not in AUX]
     for rnd, budget in enumerate(budgets):
-        ab = budget if rnd == 0 else min(budget, 20000)  # abstraction stages: a few seconds alone, more when 16 jobs compete
+        ab = budget if rnd == 0 else min(budget, 30000)  # abstraction stages: a few seconds alone, more when 16 jobs compete
         if hints and len(core) < len(premises) and not os.environ.get('PVC_NO_CORE'):
             # stage 0: without the auxiliary unfolding facts (they feed instantiation chains the goal may not need)
             try:
